@@ -435,6 +435,30 @@ theorem tuple4Hash_congr {α β γ δ : Type} {e1 : Eq' α} {e2 : Eq' β} {e3 : 
   simp only [tuple4Equal, Bool.and_eq_true] at h
   simp only [tuple4Hash, hashCombine, H1 _ _ h.1.1.1, H2 _ _ h.1.1.2, H3 _ _ h.1.2, H4 _ _ h.2]
 
+/-- the prelude's index loop over `string_nth_byte` never runs out of range and is the byte fold -/
+theorem strHashLoop_spec (s' : StrOps.Bytes) :
+    ∀ (p : StrOps.Bytes) (h : UInt64),
+      strHashLoop (p ++ s') s'.length p.length h =
+        some (s'.foldl (fun h b => (h ^^^ UInt64.ofNat b.toNat) * 1099511628211) h) := by
+  induction s' with
+  | nil => intro p h; simp [strHashLoop]
+  | cons x xs ih =>
+    intro p h
+    have hx : x.toNat < 256 := x.toNat_lt
+    have hn : StrOps.nthByte (p ++ x :: xs) (p.length : Int) = .val x.toNat := by
+      simp [StrOps.nthByte]
+    have hb : bitsOfInt (x.toNat : Int) = UInt64.ofNat x.toNat := by
+      unfold bitsOfInt
+      congr 1
+      omega
+    simp only [List.length_cons, strHashLoop, hn, hb, List.foldl_cons]
+    have := ih (p ++ [x]) ((h ^^^ UInt64.ofNat x.toNat) * 1099511628211)
+    simpa using this
+
+theorem strHashIndexed_eq (s : StrOps.Bytes) : strHashIndexed s = some (strHash s) := by
+  have := strHashLoop_spec s [] 0xcbf29ce484222325
+  simpa [strHashIndexed, strHash, StrOps.countBytes] using this
+
 theorem scalar_hash_congr :
     HashCongr voidEqual voidHash ∧ HashCongr boolEqual boolHash ∧ HashCongr intEqual intHash ∧
     HashCongr strEqual strHash := by
